@@ -4,6 +4,7 @@ package chain
 // constructors exactly as a real posmint application (pocket-core) does. Harness code, trusted.
 
 import (
+	"github.com/pokt-network/posmint/store/rootmulti"
 	"encoding/json"
 	"fmt"
 	"sort"
@@ -93,6 +94,7 @@ type Config struct {
 	Pruning     [2]int64       `json:"pruning"` // keepRecent, keepEvery; {0,1} = nothing
 	MountPerm   int            `json:"mount_perm,omitempty"`
 	MaxBlockGas int64          `json:"max_block_gas,omitempty"`
+	Lazy        bool           `json:"lazy,omitempty"` // rootmulti lazy loading of the IAVL stores
 }
 
 // PosParams are custom pos parameters (nil => module route with the forced defaults).
@@ -238,6 +240,9 @@ func NewApp(db dbm.DB, cfg Config, ix *TxIndex) *App {
 	app.MountStores(keys...)
 	app.Node = NewFakeNode(ix)
 	app.SetTendermintNode(app.Node.Node)
+	if cfg.Lazy {
+		app.Store().(*rootmulti.Store).SetLazyLoading(true)
+	}
 	if err := app.LoadLatestVersion(app.KeyMain); err != nil {
 		app.Node.Close()
 		panic(fmt.Sprintf("LoadLatestVersion: %v", err))
